@@ -1,6 +1,7 @@
 package chat
 
 import (
+	"encoding/json"
 	"github.com/takenet/lime-go"
 	"net/url"
 	"time"
@@ -252,6 +253,17 @@ func (d *Delegation) MediaType() lime.MediaType {
 
 type DelegationMessage struct {
 	Type lime.MediaType `json:"type,omitempty"`
+}
+
+// MarshalJSON omits the type when it is not defined, since the omitempty option has no effect on struct values
+// and an empty media type is not accepted by the decoders.
+func (d DelegationMessage) MarshalJSON() ([]byte, error) {
+	if d.Type == (lime.MediaType{}) {
+		return []byte("{}"), nil
+	}
+	return json.Marshal(struct {
+		Type lime.MediaType `json:"type"`
+	}{d.Type})
 }
 
 type DelegationNotification struct {
